@@ -32,7 +32,7 @@ claim("C16", "M", "SMT bounded model checking of MIR (z3 + cvc5 portfolio)",
       "Kernel level: routing fee arithmetic (compute_fees, saturating variant), cross-module agreement with the forwarding node's fee check, max_htlc_from_capacity; all u64/u32/u8 inputs. Path level: PaymentPath::update_value_and_recompute_fees on 1-3 (thorough 4) symbolic hops - every forwarding node is paid at least its policy fee for the amount it forwards, every hop carries at least its htlc_minimum (amounts <= 2^40 msat, proportional fees <= 2^19 ppm). The path search, liquidity accounting and scoring are outside the claim.",
       "trusted: rustc MIR dump, engine_m, z3")
 claim("C07", "M", "SMT bounded model checking of MIR (z3 + cvc5 portfolio)",
-      "Kernel level: which HTLC outputs of a confirmed counterparty commitment get a claim, for which outpoint, of which kind and with which urgency height (one iteration of the HTLC loop of get_counterparty_output_claim_info from an arbitrary loop-head state, replayed on live nodes); claim-package fee kernels (first-attempt fee, RBF bumping incl. BIP-125 rules 3/4 and monotone feerates, anchor-claim feerate strategy, package output value, package locktime) for all amounts/estimates over a stated finite set of transaction weights and <=2 (quick) / <=3 (thorough) inputs. Which outputs are claimed, scripts and the sweeper are outside the claim.",
+      "Kernel level: which HTLC outputs of a confirmed counterparty commitment and of our own confirmed commitment get a claim, for which outpoint, of which kind and with which urgency height (one iteration of the HTLC loops of get_counterparty_output_claim_info / get_broadcasted_holder_htlc_descriptors from an arbitrary loop-head state plus the package closure, replayed on live nodes); claim-package fee kernels (first-attempt fee, RBF bumping incl. BIP-125 rules 3/4 and monotone feerates, anchor-claim feerate strategy, package output value, package locktime) for all amounts/estimates over a stated finite set of transaction weights and <=2 (quick) / <=3 (thorough) inputs. Which outputs are claimed, scripts and the sweeper are outside the claim.",
       "trusted: rustc MIR dump, engine_m, z3; fee estimator = arbitrary u32 (<= u32::MAX/5 for the anchor strategy); previous feerate <= inputs*1000/weight")
 claim("C11", "M+K", "SMT bounded model checking of MIR (z3 + cvc5); Kani/CBMC harnesses for the BlockLocator ring",
       "Kernel level: anti-reorg confirmation thresholds of both on-chain event queues (no irreversible conclusion before ANTI_REORG_DELAY confirmations nor before a CSV output matures), heights 1..2^31, all CSV delays; the per-entry reorg decisions of ChannelMonitor - blocks_disconnected retracts exactly the events above the fork point, a funding spend counts as final only with ANTI_REORG_DELAY confirmations - for all u32 heights and queues of any length, replayed on a live monitor; BlockLocator ring operations (Kani) where registered. Equivalence of block-delivery styles and multi-step reorg histories are outside the claim.",
